@@ -451,7 +451,7 @@ func (c *Ctx) typIsList(fa *FnAnalysis, s *State, cfgT *Term) (bool, bool) {
 			idx = i
 		}
 	}
-	for _, f := range s.facts {
+	for _, f := range s.factList() {
 		if f.Kind != aTR || f.T.K != "B" || f.T.S != "==" {
 			continue
 		}
@@ -608,7 +608,7 @@ func (c *Ctx) ruleSettingsGuards() {
 				construct := ord.next("append nodeConfig.enc")
 				pos := c.p.instrPos(in)
 				good := fa.reachable(in) && fa.allHold(in, func(s *State) bool {
-					for _, fct := range s.facts {
+					for _, fct := range s.factList() {
 						if fct.Kind == aTR && !fct.Val {
 							for _, mv := range fct.T.vals {
 								// the tested value is the result of strInSlice applied to the existing pairs
